@@ -302,7 +302,19 @@ def translation_edge_stream(ctx):
         vals = [rng.randint(1, 12) for _ in range(npx)]
         ident = list(range(npx))
         mode_ = rng.random()
-        if mode_ < 0.3:
+        if mode_ < 0.15:
+            # a strictly increasing map that saturates the brightest value (v -> v, max -> +inf), no pruning: islands
+            # separated by pixels below the threshold, so that the brightest pixel may stand alone
+            vals = [v if rng.random() < 0.7 else 0 for v in vals]
+            if not any(vals):
+                vals[0] = 3
+            base = np.array(vals, dtype=float).reshape(shape)
+            top = base.max()
+            moved = np.where(base == top, np.inf, base)
+            kw0 = dict(min_value=0.5)
+            kw1 = dict(min_value=0.5)
+            what = 'float64 data with the brightest value %r replaced by +inf' % float(top)
+        elif mode_ < 0.3:
             # the same picture in units 2**-30 ... 2**-100 (or 2**40) of the original ones, min_delta scaled along
             a_ = rng.choice([2.0 ** -30, 2.0 ** -40, 2.0 ** -60, 2.0 ** -100, 2.0 ** 40])
             delta = float(rng.randint(1, 4))
@@ -340,14 +352,14 @@ def translation_edge_stream(ctx):
             kept0 = sorted(p for p, v in enumerate(base.ravel().tolist()) if v > float(kw0['min_value']))
             got0 = sorted(p for p, l in enumerate(d0.index_map.ravel().tolist()) if l >= 0)
             fails = []
-            if 'min_delta' not in kw0 and got0 != kept0:
+            if 'min_delta' not in kw0 and 'inf' not in what and got0 != kept0:
                 fails.append('%s: assigned pixels %s, pixels above the threshold %s' % (what, got0, kept0))
             if h0 != h1:
                 fails.append('%s: hierarchy %s, before the translation %s' % (what, h1, h0))
         except Exception as e:
             fails = ['compute raised %r' % (e,)]
             d0 = []
-        ctx.count('translation_edges=%s' % ('scaling' if ' x ' in what else ('large offset' if 'min_delta' in kw0 else 'integers across zero')))
+        ctx.count('translation_edges=%s' % ('saturation' if '+inf' in what else 'scaling' if ' x ' in what else ('large offset' if 'min_delta' in kw0 else 'integers across zero')))
         ctx.case_done(None, ('translate', tuple(vals), shape, what) if len(d0) >= 2 else None)
         if fails:
             ctx.oracle_failure(info, fails)
